@@ -24,13 +24,15 @@ D2R = np.pi / 180
 COLS = ['lat', 'lon', 'alt', 'VN', 'VE', 'VD', 'roll', 'pitch', 'heading']
 RATE_COLS = ['rate_x', 'rate_y', 'rate_z']
 RULE = ('full product lat x lon x pitch x roll x heading x velocity (one case per pva); inside: lever arm '
-        '{None,0,(2,-1,.5),(-3,.5,1)} x body rates {absent,(0.3,-0.5,0.8)} x with_altitude x {Position, '
+        '{None,0,(2,-1,.5),(-3,.5,1),(1.5,0,-.8),(0,0,-2)} x body rates {absent,(0.3,-0.5,0.8)} x with_altitude x {Position, '
         'NedVelocity, BodyVelocity} x measured-value offsets. Non-trivial = non-level attitude or non-zero '
         'velocity; distinct = distinct (pva, lever, rates, mode, class).')
 ASSUMPTIONS = ['true state = errstate.correct(p, x) (bound to correct_pva by C05)',
                'Jacobian by Richardson-extrapolated central differences (position 10/5 m, velocity '
-               '2e-2/1e-2 m/s, attitude 2e-4/1e-4 rad), tolerance 1e-6 of the row scale + second-order term']
-LEVERS = {'none': None, 'zero': (0.0, 0.0, 0.0), 'a': (2.0, -1.0, 0.5), 'b': (-3.0, 0.5, 1.0)}
+               '2e-2/1e-2 m/s, attitude 2e-4/1e-4 rad, 4e-3/2e-3 rad for Position), tolerance 1e-6 of the row scale + second-order term']
+LEVERS = {'none': None, 'zero': (0.0, 0.0, 0.0), 'a': (2.0, -1.0, 0.5), 'b': (-3.0, 0.5, 1.0),
+          # structured arms: a zero component / a single axis (anything that tests 'all' for 'any')
+          'c': (1.5, 0.0, -0.8), 'd': (0.0, 0.0, -2.0)}
 RATES = {'absent': None, 'present': (0.3, -0.5, 0.8)}
 OFFSETS = [(0.0, 0.0, 0.0), (10.0, -10.0, 10.0)]
 STEPS = np.array([10.0, 10.0, 10.0, 2e-2, 2e-2, 2e-2, 2e-4, 2e-4, 2e-4])
@@ -182,6 +184,8 @@ def run_case(case):
         J = np.zeros((m_exp, n))
         for k in range(n):
             h1 = STEPS[idx[k]]
+            if kind == 'Position' and idx[k] >= 6:
+                h1 = 4e-3       # longitude round-off (see tolH below) needs a larger attitude step
             h2 = h1 / 2
             ek = np.zeros(n)
             ek[k] = 1.0
@@ -196,6 +200,10 @@ def run_case(case):
         if kind == 'Position':
             # relative second-order geometry of the antenna offset and of the 10 m steps
             tolH = tolH + row_scale * 2 * (lnorm + 10.0) * geo2
+            # round-off floor: z is formed from latitudes/longitudes stored in degrees (one ulp of 180 deg
+            # is 3e-9 m); Richardson central differences with steps (4e-3, 2e-3) rad amplify it by 5/(3*2h)
+            tol_att = 4 * np.spacing(180.0) * 1.1e5 / (2 * 2e-3) * (5.0 / 3.0)
+            tolH = tolH + np.array([[tol_att if idx[k_] >= 6 else 0.0 for k_ in range(n)]])
         e = np.abs(H - J)
         tight('H_' + kind, (e / tolH).max())
         if (e > tolH).any():
